@@ -200,7 +200,7 @@ structure World where
   seen : List (Nat × Key) := []          -- keys that ever existed (their next insert carries a sentinel)
   subs : List SubSt := []
   /-- `ro1`: the peer's first transaction is still on its way: (tables after both, its change list) -/
-  pending : Option (List (Nat × List Row) × List Chg) := none
+  pending : Option (List (Nat × List Row) × List Chg × List Chg) := none
 
 def World.tbl (w : World) (t : Nat) : List Row := ((w.rows.find? (·.1 = t)).map (·.2)).getD []
 def World.db (w : World) : Db := fun t => w.tbl t
@@ -331,10 +331,19 @@ def step (w : World) (toks : List String) : Option (World × String) :=
   | ["ro2"] =>
     match w.pending with
     | none => none
-    | some (rows, l1) =>
+    | some (rows, l1, l2) =>
       let w1 := { w with rows := rows, pending := none }
       if l1.isEmpty then pure (w1, s!"ok ch=- m={showNats (w.subs.map fun _ => 0)}") else
-      let (w2, ms) := deliver w1 l1
+      -- `process_multiple_changes` only matches the changes that had an impact: an entry of the earlier
+      -- version loses against the later one where that one rewrote the same cell, and entirely where it
+      -- moved the row to a new incarnation (sentinel)
+      let impact := l1.filter fun c =>
+        let rowB := l2.filter (fun x => x.tbl = c.tbl ∧ x.key = c.key)
+        if rowB.any (fun x => x.cid = none) then false
+        else match c.cid with
+          | none => rowB.isEmpty
+          | some i => !(rowB.any (fun x => x.cid = some i))
+      let (w2, ms) := deliver w1 impact
       pure (w2, s!"ok ch={showLog l1} m={showNats ms}")
   | ["ro1", txs] =>
     if w.pending.isSome then none else do
@@ -347,7 +356,7 @@ def step (w : World) (toks : List String) : Option (World × String) :=
         match applyTx w1 tx2 with
         | none => none
         | some (w2, l2) =>
-          let vis := { patchRows w w2 l2 with seen := w2.seen, pending := some (w2.rows, l1) }
+          let vis := { patchRows w w2 l2 with seen := w2.seen, pending := some (w2.rows, l1, l2) }
           if l2.isEmpty then pure (vis, s!"ok ch=- m={showNats (w.subs.map fun _ => 0)}") else
           let (vis', ms) := deliver vis l2
           pure (vis', s!"ok ch={showLog l2} m={showNats ms}")
